@@ -3,7 +3,7 @@ import json, re
 from pcv import core, capio, textgen
 
 P = "PcVerif.Props.C04."
-THEOREMS = [P + t for t in ["indent_pattern_pinned", "leaf_single_line", "splitWs_no_space"]]
+THEOREMS = [P + t for t in ["indent_pattern_pinned", "leaf_single_line", "splitWs_no_space", "vtt_line_roundtrip"]]
 
 WORDS = ["hello", "world", "Q&A", "a<b", "1>0", "&lt;", "&amp;", "&amp;lt;", "&#38;", "x", "it's", '"quoted"', "é", "中文", "\U0001F600", "100%", "a;b", "fox",
          "<x>", "-->", "--", "]]>", "&", "<", ">", "two", "I", "{1}", "&copy;", "&nbsp;", "#", "="]
@@ -95,11 +95,14 @@ def ser_xml_like(lines, rng, fmt):
         if li:
             parts.append(rng.choice(["<br/>", "<br/>\n      ", "<br />"]) if fmt == "dfxp" else rng.choice(["<br>", "<BR>", "<br/>\n   "]))
         segs = []
-        for s, ws in groups(line):
+        for gi, (s, ws) in enumerate(groups(line)):
             toks = [spell(w, rng, named) for w in ws]
             txt = toks[0]
+            # a run of plain words right after an inline element is wrapped more often (the blank between the element
+            # and the run is then the leading blank of a multi-line text leaf)
+            pw = 0.6 if (gi > 0 and s is None) else 0.25
             for t in toks[1:]:
-                if rng.random() < 0.25:
+                if rng.random() < pw:
                     txt += rng.choice(["\n", "\n     ", "\r\n   ", "  \n\t"]) + t; wrapped = True
                 else:
                     txt += " " + t
